@@ -118,6 +118,10 @@ func execOp(line string) (out string) {
 		return encSeq(gts.Rotate(decSeq(a[0]), decInt(a[1])))
 	case "seq.reverse":
 		return encSeq(gts.Reverse(decSeq(a[0])))
+	case "seq.complement":
+		return encSeq(gts.Complement(decSeq(a[0])))
+	case "seq.revcomp":
+		return encSeq(gts.Reverse(gts.Complement(decSeq(a[0]))))
 	case "seq.concat":
 		ss := make([]gts.Sequence, len(a))
 		for i := range a {
